@@ -1,5 +1,5 @@
 (* C07 - proofs about Model/OptionsModel.v *)
-From Verif Require Import Base.Tactics Base.ZList Base.Str Model.OptionsModel.
+From Verif Require Import Base.Tactics Base.ZList Base.Str Model.IsoTimeModel Proofs.IsoTimeProofs Model.OptionsModel.
 
 Lemma qdecode_plain s : plain s = true -> qdecode s = s.
 Proof.
@@ -124,10 +124,168 @@ Proof.
   cbn [filter]. rewrite Hx, IH by exact Hr. reflexivity.
 Qed.
 
+(* ------------------------------------------------------------ quote_plus through the query string *)
+Lemma hexval_hexdigit n : 0 <= n < 16 -> hexval (hexdigit n) = Some n.
+Proof.
+  intros Hn. unfold hexdigit, hexval. destruct (n <? 10) eqn:E.
+  - replace ((48 <=? 48 + n) && (48 + n <=? 57)) with true by lia. f_equal. lia.
+  - replace ((48 <=? 55 + n) && (55 + n <=? 57)) with false by lia.
+    replace ((65 <=? 55 + n) && (55 + n <=? 70)) with true by lia. f_equal. lia.
+Qed.
+
+Lemma qdecode_quote_plus s : forallb is_byte s = true -> qdecode (quote_plus s) = s.
+Proof.
+  induction s as [|c r IH]; intros H; [reflexivity|].
+  cbn [forallb] in H. apply andb_true_iff in H. destruct H as (Hc & Hr). unfold is_byte in Hc.
+  cbn [quote_plus]. destruct (url_safe c) eqn:Es.
+  - cbn [app qdecode]. unfold url_safe in Es.
+    destruct (c =? 43) eqn:E1; [lia|]. destruct (c =? 37) eqn:E2; [lia|]. rewrite IH by exact Hr. reflexivity.
+  - destruct (c =? 32) eqn:E32.
+    + cbn [app qdecode]. change (43 =? 43) with true. cbv iota. rewrite IH by exact Hr. f_equal. lia.
+    + cbn [app qdecode]. change (37 =? 43) with false. change (37 =? 37) with true. cbv iota.
+      rewrite (hexval_hexdigit (c / 16)) by lia. rewrite (hexval_hexdigit (c mod 16)) by lia.
+      rewrite IH by exact Hr. f_equal. lia.
+Qed.
+
+(* ------------------------------------------------------------ error lists *)
+Lemma split_on_nochar d s : forall cur rest, existsb (Z.eqb d) s = false ->
+  split_on_acc d (s ++ d :: rest) cur = rev (rev s ++ cur) :: split_on_acc d rest [].
+Proof.
+  induction s as [|c r IH]; intros cur rest H; cbn [app split_on_acc].
+  - rewrite Z.eqb_refl. reflexivity.
+  - cbn [existsb] in H. apply orb_false_iff in H. destruct H as (Hc & Hr).
+    replace (c =? d) with false by (rewrite Z.eqb_sym; symmetry; exact Hc).
+    rewrite IH by exact Hr. cbn [rev]. rewrite <- app_assoc. reflexivity.
+Qed.
+Lemma split_on_last d s : forall cur, existsb (Z.eqb d) s = false ->
+  split_on_acc d s cur = [rev (rev s ++ cur)].
+Proof.
+  induction s as [|c r IH]; intros cur H; cbn [split_on_acc]; [reflexivity|].
+  cbn [existsb] in H. apply orb_false_iff in H. destruct H as (Hc & Hr).
+  replace (c =? d) with false by (rewrite Z.eqb_sym; symmetry; exact Hc).
+  rewrite IH by exact Hr. cbn [rev]. rewrite <- app_assoc. reflexivity.
+Qed.
+
+Lemma digits_nochar d s : all_digits s = true -> is_digit d = false -> existsb (Z.eqb d) s = false.
+Proof.
+  induction s as [|c r IH]; intros H Hd; [reflexivity|].
+  cbn [all_digits forallb] in H. apply andb_true_iff in H. destruct H as (Hc & Hr).
+  cbn [existsb]. rewrite (IH Hr Hd), orb_false_r. destruct (d =? c) eqn:E; [|reflexivity].
+  assert (d = c) by lia. subst. congruence.
+Qed.
+Lemma fmt_int_nochar d n : d <> 45 -> is_digit d = false -> existsb (Z.eqb d) (fmt_int n) = false.
+Proof.
+  intros H45 Hd. unfold fmt_int. destruct (n <? 0) eqn:E.
+  - cbn [existsb]. rewrite (digits_nochar d _ (dec_digits (- n) ltac:(lia)) Hd). lia.
+  - apply digits_nochar; [apply dec_digits; lia|exact Hd].
+Qed.
+
+Lemma parse_err_fmt e : parse_err (fmt_err e) = Some e.
+Proof.
+  destruct e as (c, p). unfold parse_err, fmt_err. cbn [fst snd].
+  rewrite split_on_nochar by (apply fmt_int_nochar; [lia|reflexivity]).
+  rewrite split_on_last by (apply fmt_int_nochar; [lia|reflexivity]).
+  rewrite !app_nil_r, !rev_involutive, !parse_int_fmt. reflexivity.
+Qed.
+Lemma parse_errs_fmt l : parse_errs (map fmt_err l) = Some l.
+Proof. induction l as [|e r IH]; [reflexivity|]. cbn [map parse_errs]. rewrite parse_err_fmt, IH. reflexivity. Qed.
+
+Lemma fmt_err_nocomma e : existsb (Z.eqb 44) (fmt_err e) = false.
+Proof.
+  unfold fmt_err. rewrite existsb_app. cbn [existsb].
+  rewrite !fmt_int_nochar by (try lia; reflexivity). reflexivity.
+Qed.
+Lemma fmt_err_plain e : plain (fmt_err e) = true.
+Proof.
+  unfold fmt_err, plain. rewrite forallb_app. cbn [forallb].
+  pose proof (fmt_int_plain (fst e)) as H1. pose proof (fmt_int_plain (snd e)) as H2. unfold plain in *.
+  rewrite H1, H2. reflexivity.
+Qed.
+Lemma join_plain_gen l : Forall (fun x => plain x = true) l -> plain (join_comma l) = true.
+Proof.
+  induction 1 as [|x r Hx Hr IH]; [reflexivity|].
+  destruct r as [|y r']; [exact Hx|].
+  change (join_comma (x :: y :: r')) with (x ++ 44 :: join_comma (y :: r')).
+  unfold plain in *. rewrite forallb_app. cbn [forallb]. rewrite Hx, IH. reflexivity.
+Qed.
+Lemma lower_none_has_no_eq s : str_eqb (lower s) s_none = true -> existsb (Z.eqb 61) s = false.
+Proof.
+  intros H. apply str_eqb_eq in H. unfold s_none in H.
+  destruct s as [|a [|b [|c [|d [|e r]]]]]; cbn in H; try discriminate.
+  inv H. unfold lower_c in *. cbn [existsb].
+  repeat match goal with H : (if ?t then _ else _) = _ |- _ => destruct t eqn:?; try lia end.
+  all: lia.
+Qed.
+Lemma join_errs_not_none l : l <> [] -> is_none_text (join_comma (map fmt_err l)) = false.
+Proof.
+  intros Hne. destruct l as [|e r]; [congruence|].
+  assert (He : existsb (Z.eqb 61) (join_comma (map fmt_err (e :: r))) = true).
+  { cbn [map]. assert (Hfe : existsb (Z.eqb 61) (fmt_err e) = true).
+    { unfold fmt_err. rewrite existsb_app. cbn [existsb]. rewrite Z.eqb_refl. cbn [orb]. apply orb_true_r. }
+    destruct (map fmt_err r) as [|y r']; [exact Hfe|].
+    change (join_comma (fmt_err e :: y :: r')) with (fmt_err e ++ 44 :: join_comma (y :: r')).
+    rewrite existsb_app, Hfe. reflexivity. }
+  unfold is_none_text. apply orb_false_iff. split.
+  - apply str_eqb_neq. intros H. unfold lower in H. apply map_eq_nil in H. rewrite H in He. discriminate.
+  - destruct (str_eqb (lower (join_comma (map fmt_err (e :: r)))) s_none) eqn:E; [|reflexivity].
+    apply lower_none_has_no_eq in E. congruence.
+Qed.
+
+(* ------------------------------------------------------------ availabilityStartTime *)
+Lemma qdecode_quote_colon s : forallb is_byte s = true -> qdecode (quote_colon s) = s.
+Proof.
+  induction s as [|c r IH]; intros H; [reflexivity|].
+  cbn [forallb] in H. apply andb_true_iff in H. destruct H as (Hc & Hr). unfold is_byte in Hc.
+  cbn [quote_colon]. destruct (url_safe c || (c =? 58)) eqn:Es.
+  - cbn [app qdecode]. unfold url_safe in Es.
+    destruct (c =? 43) eqn:E1; [lia|]. destruct (c =? 37) eqn:E2; [lia|]. rewrite IH by exact Hr. reflexivity.
+  - cbn [app qdecode]. change (37 =? 43) with false. change (37 =? 37) with true. cbv iota.
+    rewrite (hexval_hexdigit (c / 16)) by lia. rewrite (hexval_hexdigit (c mod 16)) by lia.
+    rewrite IH by exact Hr. f_equal. lia.
+Qed.
+
+Lemma digits_bytes s : all_digits s = true -> forallb is_byte s = true.
+Proof.
+  induction s as [|c r IH]; intros H; [reflexivity|].
+  cbn [all_digits forallb] in H. apply andb_true_iff in H. destruct H as (Hc & Hr).
+  cbn [forallb]. rewrite (IH Hr), andb_true_r. unfold is_digit in Hc. unfold is_byte. lia.
+Qed.
+Lemma pad_bytes w n : 0 <= n -> forallb is_byte (pad w n) = true.
+Proof. intros H. apply digits_bytes, pad_digits. exact H. Qed.
+
+Lemma fmt_datetime_bytes d : valid_dt d = true -> forallb is_byte (fmt_datetime d) = true.
+Proof.
+  intros Hv. unfold valid_dt in Hv. repeat (apply andb_true_iff in Hv; destruct Hv as (Hv & ?)).
+  unfold fmt_datetime. rewrite !forallb_app. rewrite !pad_bytes by lia. cbn [forallb andb].
+  assert (Hus : forallb is_byte (if d_us d =? 0 then [] else cDot :: pad 6 (d_us d)) = true).
+  { destruct (d_us d =? 0); [reflexivity|]. cbn [forallb]. rewrite pad_bytes by lia. reflexivity. }
+  rewrite Hus. cbn [andb].
+  destruct (d_off d) as [o|]; [|reflexivity]. destruct (o =? 0); [reflexivity|].
+  unfold fmt_offset. cbn [forallb]. rewrite !forallb_app. rewrite !pad_bytes.
+  - destruct (o <? 0); reflexivity.
+  - apply Z.mod_pos_bound. lia.
+  - apply Z.div_pos; lia.
+Qed.
+
+Lemma fmt_datetime_head d : valid_dt d = true -> exists c r, fmt_datetime d = c :: r /\ is_digit c = true.
+Proof.
+  intros Hv. unfold valid_dt in Hv. repeat (apply andb_true_iff in Hv; destruct Hv as (Hv & ?)).
+  pose proof (pad_digits 4 (d_year d) ltac:(lia)) as Hd. pose proof (pad_nonempty 4 (d_year d)) as Hn.
+  unfold fmt_datetime. destruct (pad 4 (d_year d)) as [|c r]; [congruence|].
+  cbn [all_digits forallb] in Hd. apply andb_true_iff in Hd. destruct Hd as (Hc & _).
+  eexists c, _. split; [reflexivity|exact Hc].
+Qed.
+Lemma fmt_datetime_not_special d : valid_dt d = true -> in_special (fmt_datetime d) = false.
+Proof.
+  intros Hv. destruct (fmt_datetime_head d Hv) as (c & r & E & Hc). rewrite E.
+  unfold is_digit in Hc. unfold in_special, special_ast. cbn [existsb].
+  rewrite !str_eqb_neq; [reflexivity| | | | |]; intros H; inversion H; lia.
+Qed.
+
 (* ------------------------------------------------------------ the round trip *)
 Theorem roundtrip k v : legal k v = true -> through_url k v = Some v.
 Proof.
-  unfold through_url. destruct k, v as [b|o|n|o|s|l]; cbn [legal fmt]; try discriminate; intros H.
+  unfold through_url. destruct k as [| | dflt | | | | | | | | |], v as [b|o|n|o|s|l|el|sy|dtv|dl]; cbn [legal fmt]; try discriminate; intros H.
   - (* bool *) destruct b; reflexivity.
   - (* int or none *) destruct o as [n|].
     + rewrite qdecode_plain by apply fmt_int_plain. cbn [parse].
@@ -152,4 +310,174 @@ Proof.
     + discriminate.
     + apply Forall_forall. intros y Hy. rewrite Forall_forall in Hf. specialize (Hf y Hy).
       unfold token_ok in Hf. apply andb_true_iff in Hf. destruct Hf as (_ & Hf). apply negb_true_iff in Hf. exact Hf.
+  - (* licence URL: any text, reserved characters included *) destruct o as [s|]; [|reflexivity].
+    apply andb_true_iff in H. destruct H as (Hb & Hn). rewrite qdecode_quote_plus by exact Hb. cbn [parse].
+    apply negb_true_iff in Hn. rewrite Hn. reflexivity.
+  - (* start=<symbolic name> *)
+    assert (Hp : plain sy = true).
+    { unfold in_special, special_ast in H. cbn [existsb] in H.
+      repeat (apply orb_true_iff in H; destruct H as [H|H]); try discriminate; apply str_eqb_eq in H; subst; reflexivity. }
+    rewrite qdecode_plain by exact Hp. cbn [parse]. rewrite H. reflexivity.
+  - (* start=<date-time>, any UTC offset *)
+    apply andb_true_iff in H. destruct H as (H & Ho). apply andb_true_iff in H. destruct H as (Hv & Hoff).
+    rewrite qdecode_quote_colon by (apply fmt_datetime_bytes; exact Hv). cbn [parse].
+    rewrite fmt_datetime_not_special by exact Hv.
+    rewrite (datetime_roundtrip dtv Hv Hoff). destruct dtv as [y mo dd h mi se us off]. cbn [d_off] in Ho.
+    destruct off as [o|]; [|discriminate]. reflexivity.
+  - (* error list *)
+    rewrite qdecode_plain by (apply join_plain_gen, Forall_forall; intros x Hx; apply in_map_iff in Hx;
+                              destruct Hx as (e & <- & _); apply fmt_err_plain).
+    cbn [parse]. destruct el as [|e r]; [reflexivity|].
+    rewrite join_errs_not_none by discriminate.
+    rewrite split_join.
+    + rewrite parse_errs_fmt. reflexivity.
+    + discriminate.
+    + apply Forall_forall. intros x Hx. apply in_map_iff in Hx. destruct Hx as (e' & <- & _). apply fmt_err_nocomma.
 Qed.
+
+(* ------------------------------------------------------------ DRM selection *)
+Definition all_items : list (Z * locs) :=
+  flat_map (fun s => map (fun L => (s, L))
+    [(true, true, true); (true, true, false); (true, false, true); (true, false, false);
+     (false, true, true); (false, true, false); (false, false, true)]) [0; 1; 2].
+
+Lemma legal_item_in i : legal_item i = true -> In i all_items.
+Proof.
+  destruct i as (s, ((c, m), p)). unfold legal_item. intros H.
+  apply andb_true_iff in H. destruct H as (H & Hl). apply andb_true_iff in H. destruct H as (H0 & H2).
+  assert (Hs : s = 0 \/ s = 1 \/ s = 2) by lia.
+  destruct Hs as [->|[->| ->]]; destruct c, m, p; try discriminate; cbn; tauto.
+Qed.
+
+(* everything the list-level proof needs to know about one item, checked over the 21 legal items *)
+Definition item_facts (i : Z * locs) : bool :=
+  let t := fmt_item i in
+  (match parse_item t with Some j => Z.eqb (fst j) (fst i) && locs_eqb (snd j) (snd i) | None => false end)
+  && negb (existsb (Z.eqb 44) t) && plain t && str_eqb (lower t) t
+  && negb (starts_with s_none t) && negb (starts_with s_all t) && (4 <=? zlen t)
+  && (if is_sys_name t then locs_eqb (snd i) all_locs && str_eqb t (sys_name (fst i)) else true).
+Lemma item_facts_all : forallb item_facts all_items = true.
+Proof. vm_compute. reflexivity. Qed.
+Lemma item_facts_of i : legal_item i = true -> item_facts i = true.
+Proof. intros H. pose proof item_facts_all as F. rewrite forallb_forall in F. apply F, legal_item_in, H. Qed.
+
+Lemma locs_eqb_eq a b : locs_eqb a b = true -> a = b.
+Proof. destruct a as ((a1, a2), a3), b as ((b1, b2), b3). destruct a1, a2, a3, b1, b2, b3; cbn; congruence. Qed.
+
+Lemma item_parse i : legal_item i = true -> parse_item (fmt_item i) = Some i.
+Proof.
+  intros H. pose proof (item_facts_of i H) as F. unfold item_facts in F.
+  repeat (apply andb_true_iff in F; destruct F as (F & ?)).
+  destruct (parse_item (fmt_item i)) as [j|]; [|discriminate].
+  apply andb_true_iff in F. destruct F as (F1 & F2). apply locs_eqb_eq in F2.
+  destruct i, j. cbn [fst snd] in *. f_equal. f_equal; [lia|exact F2].
+Qed.
+Lemma items_parse l : legal_drm l = true -> parse_items (map fmt_item l) = Some l.
+Proof.
+  induction l as [|i r IH]; intros H; [reflexivity|]. unfold legal_drm in *. cbn [forallb] in H.
+  apply andb_true_iff in H. destruct H as (Hi & Hr). cbn [map parse_items]. rewrite item_parse by exact Hi.
+  rewrite IH by exact Hr. reflexivity.
+Qed.
+
+Lemma lower_join l : lower (join_comma l) = join_comma (map lower l).
+Proof.
+  induction l as [|x r IH]; [reflexivity|]. destruct r as [|y r']; [reflexivity|].
+  change (join_comma (x :: y :: r')) with (x ++ 44 :: join_comma (y :: r')).
+  cbn [map]. change (join_comma (lower x :: lower y :: map lower r')) with (lower x ++ 44 :: join_comma (map lower (y :: r'))).
+  rewrite <- IH. unfold lower. rewrite map_app. reflexivity.
+Qed.
+
+Lemma starts_with_app p x r : zlen p <= zlen x -> starts_with p (x ++ r) = starts_with p x.
+Proof.
+  revert x. induction p as [|a p IH]; intros x H; [reflexivity|].
+  destruct x as [|b x]; [rewrite zlen_cons, zlen_nil in H; pose proof (zlen_nonneg p); lia|].
+  cbn [app starts_with]. rewrite IH; [reflexivity|]. rewrite !zlen_cons in H. lia.
+Qed.
+
+Lemma join_head x r : exists rest, join_comma (x :: r) = x ++ rest.
+Proof. destruct r as [|y r']; [exists []; cbn; rewrite app_nil_r; reflexivity|eexists; reflexivity]. Qed.
+
+Theorem drm_roundtrip l : legal_drm l = true -> through_url KDrm (VDrm l) = Some (VDrm (drm_canon l)).
+Proof.
+  intros H. unfold through_url, drm_canon. cbn [fmt]. destruct (is_all (map fmt_item l)) eqn:Ea; [reflexivity|].
+  assert (Hf : Forall (fun i => item_facts i = true) l).
+  { apply Forall_forall. intros i Hi. apply item_facts_of. unfold legal_drm in H. rewrite forallb_forall in H. apply H, Hi. }
+  set (items := map fmt_item l).
+  assert (Hfi : forall t, In t items -> exists i, t = fmt_item i /\ item_facts i = true).
+  { intros t Ht. apply in_map_iff in Ht. destruct Ht as (i & <- & Hi). exists i. split; [reflexivity|].
+    rewrite Forall_forall in Hf. apply Hf, Hi. }
+  assert (Hplain : plain (join_comma items) = true).
+  { apply join_plain_gen, Forall_forall. intros t Ht. destruct (Hfi t Ht) as (i & -> & F). unfold item_facts in F.
+    repeat (apply andb_true_iff in F; destruct F as (F & ?)). assumption. }
+  rewrite qdecode_plain by exact Hplain. cbn [parse].
+  assert (Hlow : lower (join_comma items) = join_comma items).
+  { rewrite lower_join. f_equal. rewrite <- (map_id items) at 2. apply map_ext_in. intros t Ht.
+    destruct (Hfi t Ht) as (i & -> & F). unfold item_facts in F.
+    repeat (apply andb_true_iff in F; destruct F as (F & ?)).
+    match goal with Hq : str_eqb (lower _) _ = true |- _ => apply str_eqb_eq in Hq; exact Hq end. }
+  rewrite Hlow.
+  destruct l as [|i r]; [reflexivity|].
+  assert (Fi : item_facts i = true) by (inversion Hf; assumption).
+  unfold item_facts in Fi. repeat (apply andb_true_iff in Fi; destruct Fi as (Fi & ?)).
+  destruct (join_head (fmt_item i) (map fmt_item r)) as (rest & Ej). unfold items. cbn [map]. rewrite Ej.
+  rewrite (starts_with_app s_none) by (change (zlen s_none) with 4; lia).
+  rewrite (starts_with_app s_all) by (change (zlen s_all) with 3; lia).
+  repeat match goal with Hq : negb _ = true |- _ => apply negb_true_iff in Hq end.
+  match goal with Hq : starts_with s_none _ = false |- _ => rewrite Hq end.
+  match goal with Hq : starts_with s_all _ = false |- _ => rewrite Hq end.
+  assert (Hne : str_eqb (fmt_item i ++ rest) [] = false).
+  { apply str_eqb_neq. intros Hn. apply app_eq_nil in Hn. destruct Hn as (Hn & _). rewrite Hn in *.
+    match goal with Hq : (4 <=? zlen []) = true |- _ => rewrite zlen_nil in Hq; lia end. }
+  rewrite Hne. cbn [orb]. rewrite <- Ej.
+  change (fmt_item i :: map fmt_item r) with (map fmt_item (i :: r)).
+  rewrite split_join.
+  - rewrite items_parse by exact H. reflexivity.
+  - discriminate.
+  - apply Forall_forall. intros t Ht. destruct (Hfi t Ht) as (j & -> & F). unfold item_facts in F.
+    repeat (apply andb_true_iff in F; destruct F as (F & ?)).
+    match goal with Hq : negb (existsb (Z.eqb 44) _) = true |- _ => apply negb_true_iff in Hq; exact Hq end.
+Qed.
+
+(* the canonical form lists the same (system, locations) pairs *)
+Lemma sys_name_inj a b : 0 <= a <= 2 -> 0 <= b <= 2 -> sys_name a = sys_name b -> a = b.
+Proof.
+  intros Ha Hb. assert (A : a = 0 \/ a = 1 \/ a = 2) by lia. assert (B : b = 0 \/ b = 1 \/ b = 2) by lia.
+  destruct A as [->|[->| ->]], B as [->|[->| ->]]; cbn; intros E; try reflexivity; discriminate.
+Qed.
+
+Lemma bare_item j : legal_item j = true -> is_sys_name (fmt_item j) = true ->
+  snd j = all_locs /\ fmt_item j = sys_name (fst j) /\ 0 <= fst j <= 2.
+Proof.
+  intros Hl Hn. pose proof (item_facts_of j Hl) as F. unfold item_facts in F.
+  repeat (apply andb_true_iff in F; destruct F as (F & ?)).
+  match goal with Hq : (if is_sys_name _ then _ else _) = true |- _ => rewrite Hn in Hq; apply andb_true_iff in Hq; destruct Hq as (Q1 & Q2) end.
+  apply locs_eqb_eq in Q1. apply str_eqb_eq in Q2. split; [exact Q1|]. split; [exact Q2|].
+  destruct j as (s, ((c, m), p)). unfold legal_item in Hl. cbn [fst]. lia.
+Qed.
+
+Theorem drm_canon_same l : legal_drm l = true -> forall i, In i (drm_canon l) <-> In i l.
+Proof.
+  intros H i. unfold drm_canon. destruct (is_all (map fmt_item l)) eqn:Ea; [|tauto].
+  unfold is_all in Ea. repeat (apply andb_true_iff in Ea; destruct Ea as (Ea & ?)).
+  unfold legal_drm in H. rewrite forallb_forall in H, Ea.
+  assert (Hfind : forall k, 0 <= k <= 2 -> existsb (str_eqb (sys_name k)) (map fmt_item l) = true -> In (k, all_locs) l).
+  { intros k Hk He. apply existsb_exists in He. destruct He as (t & Ht & Heq). apply str_eqb_eq in Heq. subst t.
+    apply in_map_iff in Ht. destruct Ht as (j & Ej & Hj).
+    destruct (bare_item j (H j Hj)) as (Q1 & Q2 & Q3).
+    { rewrite Ej. unfold is_sys_name, sys_of. assert (K : k = 0 \/ k = 1 \/ k = 2) by lia.
+      destruct K as [->|[->| ->]]; reflexivity. }
+    rewrite Q2 in Ej. apply sys_name_inj in Ej; [|exact Q3|exact Hk].
+    destruct j as (s, L). cbn [fst snd] in *. subst. exact Hj. }
+  split.
+  - intros Hi. cbn [every_system In] in Hi. destruct Hi as [<-|[<-|[<-|[]]]]; apply Hfind; try lia; assumption.
+  - intros Hi. destruct (bare_item i (H i Hi)) as (Q1 & _ & Q3).
+    { apply Ea. apply in_map. exact Hi. }
+    destruct i as (s, L). cbn [fst snd] in *. subst L. cbn [every_system In].
+    assert (K : s = 0 \/ s = 1 \/ s = 2) by lia. destruct K as [->|[->| ->]]; tauto.
+Qed.
+
+(* a licence URL with reserved characters, a '+' and a %XX escape in it arrives unchanged (it did not before the repair
+   of the double decoding in /repo: from_string applied unquote_plus to what request.args had already decoded) *)
+Example url_with_plus_and_percent :
+  through_url KUrl (VOptStr (Some [97; 43; 98; 37; 52; 49; 32; 38; 61])) = Some (VOptStr (Some [97; 43; 98; 37; 52; 49; 32; 38; 61])).
+Proof. vm_compute. reflexivity. Qed.
